@@ -2359,6 +2359,7 @@ fn emit_traces(a: &Args, jobs: &[Job], stem: &str) -> Value {
     let (mut events, mut runs) = (0usize, 0usize);
     let mut files: Vec<String> = vec![];
     let mut crashes = 0usize;
+    let mut timeouts = 0usize;
     // one trace file series per family; subjects of families with modelled known findings get their own,
     // so that a KF-mode re-validation stays small
     let group_of = |j: &Job| -> String {
@@ -2392,9 +2393,16 @@ fn emit_traces(a: &Args, jobs: &[Job], stem: &str) -> Value {
             all.push(cur);
         }
         // a child that died: the signal / timeout is an event of the run it was executing
+        // a child that ran out of time gives NO verdict (a slow or stalled machine is not a defect of the code
+        // under test, and the property states no time bound): the run it was executing is dropped, the runs it
+        // completed are kept, the count goes into the summary
+        if matches!(&j.outcome, Some(ChildOutcome::Timeout)) {
+            timeouts += 1;
+            all.pop();
+        }
         let died = match &j.outcome {
             Some(ChildOutcome::Signal(s)) => Some(json!({"op":"crash","t":0,"sig":s})),
-            Some(ChildOutcome::Timeout) => Some(json!({"op":"timeout","t":0})),
+            Some(ChildOutcome::Timeout) => None,
             Some(ChildOutcome::Exit(c)) if *c != 0 || !finished => Some(json!({"op":"crash","t":0,"sig":0,"exit":c})),
             _ => None,
         };
@@ -2438,7 +2446,7 @@ fn emit_traces(a: &Args, jobs: &[Job], stem: &str) -> Value {
         runs += tr.runs;
         files.extend(tr.files.iter().map(|p| p.display().to_string()));
     }
-    json!({"events":events,"runs":runs,"files":files,"subjects":per,"crashes":crashes})
+    json!({"events":events,"runs":runs,"files":files,"subjects":per,"crashes":crashes,"children_timed_out":timeouts})
 }
 
 fn parent(a: &Args, what: &str) {
